@@ -25,6 +25,7 @@ Prefix == <<"[", "x", "]", "(">>
 K1 == {"a", "(", ")", "\\", " ", "\""}
 K2 == {"a", "<", ">", "\\", " ", ")"}
 K3 == {"a", "'", "(", ")", " ", "\""}
+K5 == {"&", "l", "t", ";", "\\", ")"}             \* character references and escapes in a destination ("&ll;" is U+226A)
 K4 == {"a", "(", ")", " "}                       \* parentheses only, read deeper
 
 (* -- the remainder of an inline link, parsed from position i of sequence r -- *)
@@ -56,10 +57,11 @@ TitleEnd(r, i, close) ==
     ELSE IF close = ")" /\ r[i] = "(" THEN 0
     ELSE TitleEnd(r, i + 1, close)
 
-(* backslash escapes resolved *)
+(* backslash escapes and character references resolved, in one pass *)
 RECURSIVE Unesc(_)
 Unesc(sq) == IF sq = << >> THEN << >>
              ELSE IF Head(sq) = "\\" /\ Len(sq) >= 2 /\ sq[2] \in AsciiPunct THEN <<sq[2]>> \o Unesc(SubSeq(sq, 3, Len(sq)))
+             ELSE IF Head(sq) = "&" /\ EntityEnd(sq, 1) > 0 THEN <<EntityText(sq, Seg("ent", 1, EntityEnd(sq, 1)))>> \o Unesc(SubSeq(sq, EntityEnd(sq, 1) + 1, Len(sq)))
              ELSE <<Head(sq)>> \o Unesc(Tail(sq))
 
 NoLink == [ok |-> FALSE, dest |-> << >>, title |-> << >>, hasTitle |-> FALSE, next |-> 0]
@@ -86,7 +88,7 @@ ParseRemainder(r) ==
 RECURSIVE HrefEnc(_)
 HrefEnc(sq) == IF sq = << >> THEN ""
                ELSE LET c == Head(sq) IN
-                    (CASE c = " " -> "%20" [] c = "\"" -> "%22" [] c = "'" -> "%27" [] c = "\\" -> "%5C" [] c = "<" -> "%3C" [] c = ">" -> "%3E" [] c = "&" -> "&amp;" [] OTHER -> c)
+                    (CASE c = " " -> "%20" [] c = "\"" -> "%22" [] c = "'" -> "%27" [] c = "\\" -> "%5C" [] c = "<" -> "%3C" [] c = ">" -> "%3E" [] c = "&" -> "&amp;" [] c = "{U+226A}" -> "%E2%89%AA" [] OTHER -> c)
                     \o HrefEnc(Tail(sq))
 RECURSIVE AttrEsc(_)
 AttrEsc(t) == IF t = "" THEN "" ELSE LET c == SubSeq(t, 1, 1) IN
